@@ -100,6 +100,38 @@ def main():
     shutil.rmtree(wd, ignore_errors=True)
     vs_, gen, dist = core.validate("C11", merged, batch=150)
     rep.add_traces(merged, vs_, gen, dist, nontrivial_key=lambda c: str([o["text"] for o in c["objs"][:3]]) + str(c["events"][len(c["objs"])].get("w", "")))
+    # ---- dense time: two or three dense objects (offline and online) fed the *same* caller-owned sample lists
+    import c05 as _c05, c04 as _c04
+    dcases = []
+    for i in range(len(cases) // 2):
+        S = rng.choice([1, 2])
+        vs = list(rng.choice([("x",), ("x", "y")]))
+        end = rng.choice([3, 5, 8])
+        w = {v: gen_signal(rng, rng.choice([2, 3, 4, 5]), t0=0, S=S, end=end) for v in vs}
+        K = rng.choice([2, 2, 3])
+        objs, evs = [], []
+        for k in range(K):
+            online = rng.random() < 0.5
+            ops = _c05.UNTIMED if online else _c04.DENSE_OPS
+            g = Gen(rng, vars_=vs, S=S, ops=ops, ivs=_c04.IVS, bool_atoms=True)
+            for _ in range(30):
+                phi = g.formula(rng.choice([1, 2, 2]))
+                if set(vars_of(phi)) == set(vs) and not any(q["op"] in BIN2 and not vars_of(q) for q in subformulas(phi)):
+                    break
+            else:
+                phi = bi("and", *[pred("ge", var(v), const(0)) for v in (vs * 2)[:2]])
+            objs.append(ct_obj(phi, S, vs))
+            evs.append(ev_parse(k + 1))
+        for k in range(K):
+            online = not (ops_of(objs[k]["phi"]) & FUT) and rng.random() < 0.6
+            evs.append(ev_ct("update" if online else "evaluate", w, k + 1, share="sig"))
+            if not online and rng.random() < 0.4:
+                evs.append(ev_ct("evaluate", w, k + 1, share="sig"))      # evaluated again on the same data
+        dcases.append(case(objs, evs))
+    dtr = runner.run_cases(dcases)
+    dvs, dgen, ddist = core.validate("C11_dense", dtr, module="TraceCt")
+    rep.add_traces(dtr, dvs, dgen, ddist, nontrivial_key=lambda c: str([o["text"] for o in c["objs"]]) + str(c["events"][-1]["w"]))
+    rep.extra["dense_cases"] = len(dcases)
     rep.extra["hash_seeds"] = seeds
     rep.extra["objects_per_case"] = "1-3 objects x %d hash seeds" % len(seeds)
     return rep.finish("TLC: K=2 objects, every interleaving of their calls (isolation as an action property, each object still meets C02/C10); "
